@@ -370,6 +370,23 @@ Section MODEL.
     let '(s2, opens) := open_all f s1 ids in
     (s2, mkObs r (N.of_nat (length ids)) ids opens).
 
+  (* j = project.open_job(id=p); j.statepoint() for an ABBREVIATED id p: the resolved id (or the exception
+     of open_job) and what statepoint() gives *)
+  Definition open_pre (f : fs) (s : sess) (p : str) : sess * result (str * result json) :=
+    match open_id f s p with
+    | (s1, Err e) => (s1, Err e)
+    | (s1, Ok h) => let '(s2, r) := handle_sp f s1 h in (s2, Ok (fst h, r))
+    end.
+
+  Fixpoint open_pres (f : fs) (s : sess) (ps : list str) : sess * list (str * result (str * result json)) :=
+    match ps with
+    | [] => (s, [])
+    | p :: r =>
+        let '(s1, x) := open_pre f s p in
+        let '(s2, l) := open_pres f s1 r in
+        (s2, (p, x) :: l)
+    end.
+
   (* the file system with the persistent cache file moved away *)
   Definition without_cache (f : fs) : fs := remove CACHEP f.
 
